@@ -29,7 +29,8 @@ Next ==
         ELSE IF r \in procd THEN Reject("row_processed_twice") /\ UNCHANGED <<cfg, emitted, procd, lastp, swaps>>
         ELSE IF e.i < Last(e.p) THEN
              \* a single producer's rows must be processed in emission order
-             IF "ExpansionReordersRows" \in Dev /\ cfg.strategy = "expand" /\ swaps > 0
+             \* (not in the "stalled" schedule: there the consumer is busy in the sink during every expansion and holds no old reference)
+             IF "ExpansionReordersRows" \in Dev /\ cfg.strategy = "expand" /\ swaps > 0 /\ ~("strict" \in DOMAIN cfg /\ cfg.strict = 1)
                THEN /\ PrintT(<<"DEV", cfg.tr, l, "ExpansionReordersRows">>) /\ procd' = procd \cup {r} /\ UNCHANGED <<cfg, emitted, lastp, swaps, dead>>
                ELSE Reject("producer_order_violated") /\ UNCHANGED <<cfg, emitted, procd, lastp, swaps>>
         ELSE procd' = procd \cup {r} /\ lastp' = SetLast(e.p, e.i) /\ UNCHANGED <<cfg, emitted, swaps, dead>>
